@@ -1,19 +1,35 @@
 /- GENERATED: instance obligations for one logic, discharged by kernel evaluation.
-   `X ⊆ known`: every failing row is a committed known finding (Ptx/Gen/Known.lean). -/
+   `S` = the logic with its DOCUMENTED tables (Ptx/Sem/Spec.lean); rules, closure, trunk and frames
+   are what the translator read off the code.  `X ⊆ known`: every failing row is a committed
+   known finding (Ptx/Gen/Known.lean, generated from known_findings.json). -/
 import Ptx.Gen.L_KG3
 import Ptx.Gen.Known
 import Ptx.Sem.Subset
+import Ptx.Props.C01
+import Ptx.Gen.L_G3
 namespace Ptx.Gen.Obl.KG3
 open Ptx
 
-theorem tables_total : Gen.KG3.tablesTotalB = true := by decide +kernel
-theorem rules_exact : subsetB Gen.KG3.badRules (Known.badRules "KG3") = true := by decide +kernel
-theorem rules_sound : subsetB Gen.KG3.unsoundRules (Known.unsoundRules "KG3") = true := by decide +kernel
-theorem rules_total : subsetB Gen.KG3.missingRules (Known.missingRules "KG3") = true := by decide +kernel
-theorem rules_local : Gen.KG3.nonLocalRules = [] := by decide +kernel
-theorem closure_total : Gen.KG3.closureTotalB = true := by decide +kernel
-theorem closure_exact : subsetB Gen.KG3.badClosure (Known.badClosure "KG3") = true := by decide +kernel
-theorem read_total : Gen.KG3.readTotalB = true := by decide +kernel
-theorem read_exact : subsetB Gen.KG3.badRead (Known.badRead "KG3") = true := by decide +kernel
+/-- a modal / first-order extension has exactly the truth-functional tables of its base (G3) -/
+theorem base_tables : Gen.KG3.tables.sameTF Gen.G3.tables = true := by decide +kernel
+theorem spec_defined : Gen.KG3.specDefinedB = true := by decide +kernel
+theorem tables_spec : subsetB Gen.KG3.tableDiff (Known.tableDiff "KG3") = true := by decide +kernel
+theorem defined_ops : Gen.KG3.tables.definedOpsBad = [] := by decide +kernel
+theorem tables_total : Gen.KG3.sem.tablesTotalB = true := by decide +kernel
+theorem rules_exact : subsetB Gen.KG3.sem.badRules (Known.badRules "KG3") = true := by decide +kernel
+theorem rules_sound : subsetB Gen.KG3.sem.unsoundRules (Known.unsoundRules "KG3") = true := by decide +kernel
+theorem rules_total : subsetB Gen.KG3.sem.missingRules (Known.missingRules "KG3") = true := by decide +kernel
+theorem rules_local : Gen.KG3.sem.nonLocalRules = [] := by decide +kernel
+theorem closure_total : Gen.KG3.sem.closureTotalB = true := by decide +kernel
+theorem closure_exact : subsetB Gen.KG3.sem.badClosure (Known.badClosure "KG3") = true := by decide +kernel
+theorem read_total : Gen.KG3.sem.readTotalB = true := by decide +kernel
+theorem read_exact : subsetB Gen.KG3.sem.badRead (Known.badRead "KG3") = true := by decide +kernel
+theorem sound_core : Gen.KG3.sem.soundCoreB = true := by decide +kernel
+
+/-- C01 for this logic: a closed tableau reached by any legal derivation has no countermodel. -/
+theorem c01_valid_sound (arg : Argument) (t : Tableau)
+    (hd : Deriv Gen.KG3.sem.soundPart.noQuantPart (trunk Gen.KG3.sem arg) t) (hclosed : t.allClosed = true)
+    (M : Struct) (hM : M.Interp Gen.KG3.sem) (e : Env M.D) (w0 : M.W) : ¬ Countermodel Gen.KG3.sem M e w0 arg :=
+  Props.C01.C01_valid_sound_partial Gen.KG3.sem sound_core arg t hd hclosed M hM e w0
 
 end Ptx.Gen.Obl.KG3
